@@ -191,7 +191,14 @@ func monC01(c *Ctx, cs *RTCase, file []byte) bool {
 func monC02(c *Ctx, cs *RTCase, file []byte) bool {
 	sh := cs.Shape
 	sc := sh.Schema()
-	d, err := pqfile.Validate(file, pqfile.Expect{Schema: &sc.Root.Node, Codec: int32(cs.Codec), MaxPageRecs: cs.Page, Records: int64(len(cs.Recs))})
+	page, codec := cs.Page, cs.Codec
+	if page <= 0 {
+		page = 1000 // documented default of MaxPageSize
+	}
+	if codec == CodecDefault {
+		codec = CodecSnappy // documented default compression
+	}
+	d, err := pqfile.Validate(file, pqfile.Expect{Schema: &sc.Root.Node, Codec: int32(codec), MaxPageRecs: page, Records: int64(len(cs.Recs))})
 	if err != nil {
 		c.Out.Violate(Violation{Prop: "C02", Key: key(sh, "container"), Case: cs.ID, Shape: sh.Name, Detail: err.Error()})
 		return false
